@@ -127,8 +127,8 @@ def roundtrip(prop, tier, seed):
 
 GEN = {
     # prop: dict(workload, extra, quick=(cases, secs), thorough=(cases, secs), both_profiles, rule, distinct, evaluations, assumptions)
-    "C05": dict(workload="simple", extra=["--mode", "c05"], quick=(6000, 60), thorough=(150000, 600), both=True,
-                rule="files written from generated programs (tame coordinates incl. +-0, attribute subsets, invalid-state patterns incl. out-of-set values injected by renaming an extension attribute in the XML, unit-quaternion poses) x ALL 64 option vectors; each simple point is compared with models::simple_point(raw point, descriptor, options); non-trivial = point cloud with >=1 point run under the 64 vectors; distinct = distinct attribute subsets observed",
+    "C05": dict(workload="simple", extra=["--mode", "c05"], quick=(6000, 60), thorough=(150000, 600), both=True, encoder_files=(400, 8000),
+                rule="files written from generated programs and files from the independent encoder in exotic layouts (tame coordinates incl. +-0, attribute subsets, invalid-state patterns incl. out-of-set values injected by renaming an extension attribute in the XML, unit-quaternion poses) x ALL 64 option vectors; each simple point is compared with models::simple_point(raw point, descriptor, options); non-trivial = point cloud with >=1 point run under the 64 vectors; distinct = distinct attribute subsets observed",
                 distinct=lambda r: len(r.nums.get("attr_subset", ())), evaluations=lambda r: r.stats.get("option_vectors_run", 0),
                 assumptions=["only unit quaternions; derived spherical coordinates are taken from the un-posed Cartesian value", "points whose coordinates are non-finite are not judged under a pose (inf*0 differs between matrix and quaternion form)", "numeric values of normalised colour/intensity are left to C13; C05 checks presence/absence and un-normalised values exactly"]),
     "C13": dict(workload="simple", extra=["--mode", "c13"], quick=(60000, 40), thorough=(1500000, 400), both=True,
@@ -183,6 +183,13 @@ def generic(prop, tier, seed):
         b = build("checked")
         extra = g["extra"] + (g.get("quick_extra", []) if tier == "quick" else g.get("thorough_extra", []))
         res.merge(run_shards(b, g["workload"], extra, cases, secs, seed, tier, wd, "checked", prop, abort_prop=g.get("abort_prop")))
+        if g.get("encoder_files"):
+            # the same monitor over files from the independent encoder (all legal layouts)
+            from e57ref import produce
+            nq, nt = g["encoder_files"]
+            lst, metas = produce.produce(os.path.join(wd, "enc"), seed, nq if tier == "quick" else nt)
+            res.merge(run_shards(b, g["workload"], g["extra"] + ["--filelist", lst], len(metas), secs, seed, tier, wd, "encfiles", prop, abort_prop=g.get("abort_prop")))
+            res.stats["encoder_files"] = len(metas)
         if tier == "thorough" and g.get("both"):
             b2 = build("release")
             res.merge(run_shards(b2, g["workload"], extra, cases // 2, secs // 2, seed + 1000003, tier, wd, "release", prop, abort_prop=g.get("abort_prop")))
@@ -287,7 +294,7 @@ def c19(prop, tier, seed):
             "non-trivial = source that was copied and compared; distinct = distinct source files (FNV-64 of their bytes)")
     extra_cov = dict(notes)
     extra_cov.update({"files_copied": res.stats.get("files_copied", 0), "skipped_not_rule_conforming": res.stats.get("skipped_not_rule_conforming", 0), "generations_compared": res.stats.get("generations_compared", 0), "byte_identical_pairs": res.stats.get("determinism_pairs", 0), "second_generation_byte_identical": res.stats.get("second_generation_byte_identical", 0)})
-    assumptions = ["sources whose prototypes the writer's documented rules reject (e.g. cartesianInvalidState declared 0..1 by libE57Format) are skipped and counted", "limits are compared only when complete in the source (the writer documents that it omits partial ones)"]
+    assumptions = ["sources whose prototypes the writer's documented rules reject (e.g. cartesianInvalidState declared 0..1 by libE57Format) are skipped and counted", "limits are compared only when complete in the source (the writer documents that it omits partial ones)", "an absent point cloud / image GUID equals an empty one (the writer API takes the GUID as &str)"]
     return finish(prop, tier, seed, level(prop), res, rule, len(res.nums.get("source_identity", ())), res.stats.get("sources", 0), assumptions, t0, extra_cov)
 
 
@@ -362,6 +369,89 @@ def c02(prop, tier, seed):
 
 
 PLANS["C02"] = c02
+
+
+def run_dump(b, lst, wd, tag, seed, tier, prop, extra=()):
+    """dump the files of list `lst` with the harness; returns (Result, {file: obs})"""
+    r = run_shards(b, "dump", ["--filelist", lst] + list(extra), 10 ** 9, 600, seed, tier, wd, tag, prop)
+    obs = {}
+    for f in glob.glob(os.path.join(wd, tag + "_*.jsonl.obs.jsonl")):
+        for line in open(f):
+            try:
+                j = json.loads(line)
+            except json.JSONDecodeError:
+                continue
+            obs[j["file"]] = j["obs"]
+    return r, obs
+
+
+def _c03_cmp(args):
+    seed, i, path, obs = args
+    from e57ref import produce
+    from oracles import c03
+    try:
+        s, _ = produce.scene_for(seed, i)
+        return path, c03.compare(s, obs)
+    except Exception:
+        import traceback
+        return path, [("ORACLE-ERROR", traceback.format_exc()[-800:])]
+
+
+def c03(prop, tier, seed):
+    import multiprocessing
+    from e57ref import produce
+    t0 = time.time()
+    wd = workdir(prop, tier)
+    res = Result()
+    cover = {}
+    try:
+        n = 1500 if tier == "quick" else 40000
+        lst, metas = produce.produce(os.path.join(wd, "enc"), seed, n)
+        b = build("checked")
+        r, obs = run_dump(b, lst, wd, "dump", seed, tier, prop)
+        res.merge(r)
+        meta_by_file = {m["file"]: m for m in metas}
+        jobs = [(seed, meta_by_file[f]["i"], f, o) for f, o in obs.items() if f in meta_by_file]
+        missing = [f for f in meta_by_file if f not in obs]
+        if missing:
+            res.inconclusive.append({"why": "files without an observation log", "n": len(missing)})
+        per_scene = {}
+        with multiprocessing.Pool(NCPU) as pool:
+            for path, problems in pool.imap_unordered(_c03_cmp, jobs, chunksize=16):
+                m = meta_by_file[path]
+                per_scene.setdefault(m["i"], {})[m["layout"]] = problems
+                for rule, text in problems:
+                    if rule == "ORACLE-ERROR":
+                        raise Infra("C03 oracle crashed on %s: %s" % (path, text))
+                    sig = f"{prop}/{rule}/layout={m['layout']}"
+                    res.sigcounts[sig] = res.sigcounts.get(sig, 0) + 1
+                    if sum(1 for v in res.viols if v["sig"] == sig) < 3:
+                        res.viols.append({"prop": prop, "sig": sig, "detail": f"encoder file #{m['i']} ({m['layout']} layout; packets={m['packets']}, packet kinds {m['packet_kinds']}, lexical {m['lexical']}): {text}", "workload": "dump", "seed": seed, "case": m["i"], "args": None})
+        for m in metas:
+            for k in m["lexical"]:
+                cover["lexical:" + k] = cover.get("lexical:" + k, 0) + 1
+            for k, v in m["packet_kinds"].items():
+                cover["packets:" + k] = cover.get("packets:" + k, 0) + v
+            for k in m["split_shapes"]:
+                cover["split:" + k] = cover.get("split:" + k, 0) + 1
+            cover["layout:" + m["layout"]] = cover.get("layout:" + m["layout"], 0) + 1
+            if m["xml_first"]:
+                cover["xml-before-sections"] = cover.get("xml-before-sections", 0) + 1
+            res.nums.setdefault("section_start_mod1020", set()).update(m["start_residues"])
+            res.nums.setdefault("xml_start_mod1020", set()).add(m["xml_start_residue"])
+        res.cover.update(cover)
+        res.stats["files_compared"] = len(jobs)
+        res.samples = [{"file": os.path.basename(m["file"]), "layout": m["layout"], "packets": m["packets"], "packet_kinds": m["packet_kinds"], "lexical": m["lexical"]} for m in metas[:3]]
+    finally:
+        cleanup(wd)
+    rule = ("random scenes (1-3 point clouds with every type/width, images of all kinds, standalone blobs, wild strings) encoded by the independent Python encoder in an exotic legal layout (random/unequal/run-ahead splits of every attribute stream incl. empty streams and values straddling packets; index and ignored packets before/between/after data packets; trailing index packet with index offset; sections in shuffled order with no/small/page-edge/random padding; XML before or after the sections; "
+            "lexical variants: attribute order and quote style, CDATA vs escaped vs numeric character references vs mixed, empty-element tags, whitespace/indentation/comments between elements, XML declaration variants, trailing spaces, omitted optional type attributes, shuffled element order inside structures) and, as control, in a plain layout; the crate's reader dumps everything it reports and the dump is compared with the scene; non-trivial = file compared; distinct = distinct scenes x 2 layouts")
+    extra = {"files_compared": res.stats.get("files_compared", 0), "layout_features_exercised": {k: v for k, v in sorted(cover.items())}}
+    assumptions = ["layouts are restricted to what the format defines (continuous byte stream per attribute, packet length incl. header and padding, reserved bytes zero) and the encoder is calibrated: e57ref.decode must accept and reproduce every file it emits (./check --setup)", "lexical variants preserve the infoset; whitespace inside numeric leaves, comments inside leaf values and DTDs are excluded"]
+    return finish(prop, tier, seed, level(prop), res, rule, res.stats.get("files_compared", 0), res.stats.get("files_compared", 0), assumptions, t0, extra)
+
+
+PLANS["C03"] = c03
 
 
 def run(prop, tier, seed):
